@@ -617,6 +617,9 @@ func (u *Unit) typeInv(st *State, v Term, typ types.Type) Term {
 		}
 	case *types.Pointer, *types.Map, *types.Chan, *types.Signature:
 		return and(app("Bool", "<=", intLit(0), v), app("Bool", "<", v, st.alloc))
+	case *types.Interface:
+		// the object an interface value refers to (if any) exists already
+		return app("Bool", "<", app("Int", "irefof", v), st.alloc)
 	case *types.Slice:
 		arr, off, ln, cp := sArr(v), sOff(v), sLen(v), sCap(v)
 		return and(app("Bool", "<=", intLit(0), arr), app("Bool", "<", arr, st.alloc), app("Bool", "<=", intLit(0), off),
